@@ -5,7 +5,7 @@ From Coq Require Import QArith Qabs Qround Qminmax Sorting.Sorted.
 
 (* ---- measures: every time of [first, last) lies in exactly one measure *)
 Lemma measures_partition_lemma div tsigs first last ex ms :
-  pre tsigs first last ex div -> add_measures div tsigs first last ex = Some ms ->
+  pre tsigs first last ex -> add_measures div tsigs first last ex = Some ms ->
   forall x, first <= x < last ->
     exists m, In m (spans ms) /\ fst m <= x < snd m
               /\ forall m', In m' (spans ms) -> fst m' <= x < snd m' -> m' = m.
@@ -18,7 +18,7 @@ Qed.
 
 (* ---- length of a new measure *)
 Lemma new_measure_length_full div tsigs first last ex ms :
-  pre tsigs first last ex div -> add_measures div tsigs first last ex = Some ms ->
+  pre tsigs first last ex -> add_measures div tsigs first last ex = Some ms ->
   forall m, In m ms -> m_old m = false ->
   exists s, In s (stretches div tsigs first last)
             /\ stretch_in_force div (ts_rows tsigs first) s
@@ -27,7 +27,7 @@ Lemma new_measure_length_full div tsigs first last ex ms :
 Proof.
   intros P H m Hm Ho.
   destruct (new_measure_length_lemma _ _ _ _ _ _ P H m Hm Ho) as (s & Hs & Hr & Hn).
-  destruct P as [T X].
+  destruct P as (T & X).
   exists s. split; [exact Hs|]. split; [exact (stretches_in_force_lemma _ _ _ _ T s Hs)|].
   split; [exact Hr|]. split; [|exact Hn].
   destruct (stretches_chain div tsigs first last T) as [_ B]. apply (B s Hs).
@@ -46,7 +46,7 @@ Qed.
    end of the signature's stretch (the next signature or the last point), the last point, or the
    start of an existing measure *)
 Lemma new_measure_length_integral_lemma div tsigs first last ex ms :
-  pre tsigs first last ex div -> add_measures div tsigs first last ex = Some ms ->
+  pre tsigs first last ex -> add_measures div tsigs first last ex = Some ms ->
   forall m, In m ms -> m_old m = false ->
   exists s, In s (stretches div tsigs first last)
     /\ stretch_in_force div (ts_rows tsigs first) s
@@ -136,29 +136,29 @@ Proof.
 Qed.
 
 (* ---- the hypotheses are satisfiable: 3/4 at 4 divisions from 0, 2/4 from 24, last point 40, an
-   existing measure (5, 9) and one (30, 33) *)
+   existing measure (5, 9) and one (22, 30) that runs across the signature change *)
 Definition ex_tsigs : list (Z * Z * Z) := [(0, 3, 4); (24, 2, 4)].
-Definition ex_existing : list (Z * Z) := [(5, 9); (30, 33)].
+Definition ex_existing : list (Z * Z) := [(5, 9); (22, 30)].
 
-Lemma ex_pre : pre ex_tsigs 0 40 ex_existing 4 /\ ex_sorted ex_existing.
+Lemma ex_pre : pre ex_tsigs 0 40 ex_existing /\ ex_sorted ex_existing.
 Proof.
-  split; [split|].
+  split; [split; [|split]|].
   - split; [discriminate|]. split; [lia|]. split.
     + simpl. repeat constructor.
     + repeat constructor; unfold row_t; simpl; lia.
-  - intros s Hs. vm_compute in Hs.
-    destruct Hs as [<-|[<-|[]]]; intros m [<-|[<-|[]]]; simpl; lia.
+  - intros m [<-|[<-|[]]]; simpl; lia.
+  - intros m [<-|[<-|[]]]; simpl; lia.
   - repeat constructor; simpl; lia.
 Qed.
 
 Lemma ex_result :
   add_measures 4 ex_tsigs 0 40 ex_existing
-  = Some [(0, 5, 1, false); (5, 9, 2, true); (9, 21, 3, false); (21, 24, 4, false);
-          (24, 30, 5, false); (30, 33, 6, true); (33, 40, 7, false)].
+  = Some [(0, 5, 1, false); (5, 9, 2, true); (9, 21, 3, false); (21, 22, 4, false);
+          (22, 30, 5, true); (30, 38, 6, false); (38, 40, 7, false)].
 Proof. vm_compute. reflexivity. Qed.
 
-(* a note (3, 26) of a part with these measures at 4 divisions: five pieces, all notated *)
+(* a note (3, 35) of a part with these measures at 4 divisions: stage 1 cuts it at five bar lines, stage 2 splits the last piece of five sixteenths *)
 Lemma ex_tie :
-  tie_chain [0; 5; 9; 21; 24; 30; 33] 4 (60, 1, 1, [(3, 26)])
-  = (60, 1, 1, [(3, 5); (5, 9); (9, 21); (21, 24); (24, 26)]).
+  tie_chain [0; 5; 9; 21; 22; 30; 38] 4 (60, 1, 1, [(3, 35)])
+  = (60, 1, 1, [(3, 5); (5, 9); (9, 21); (21, 22); (22, 30); (30, 32); (32, 35)]).
 Proof. vm_compute. reflexivity. Qed.
